@@ -32,7 +32,7 @@ ASSUMPTIONS = [
 ]
 
 ERRORS = ["EPIPE", "ECONNRESET", "TIMEOUT"]
-KINDS = ["doc", "menu", "error", "info", "dirinfo", "zipmember", "mboxfolder", "mboxmsg", "html", "maildirmsg"]
+KINDS = ["doc", "menu", "error", "info", "dirinfo", "zipmember", "mboxfolder", "mboxmsg", "html", "maildirmsg", "gzdoc", "script"]
 FORMS = ["gopher", "gophers", "gplus", "http", "https", "head", "wap", "gemini", "spartan"]
 
 
@@ -92,6 +92,9 @@ def _spec(size, nmenu):
         spec.append(["menu/entry%02d.txt" % i, "f", "e\n"])
     spec.append(["menu/.abstract", "f", "a menu\n"])
     spec.append(["arch.zip", "zip", {"members": [["m.txt", "f", "member text\n" * 400, {}]]}])
+    # produced with the help of a child process whose output the server relays (several 64 KiB copy blocks)
+    spec.append(["big.txt.gz", "f", sites.gz_text("0123456789abcdef" * 64 * 200)])
+    spec.append(["out.sh", "f", "#!/bin/sh\nhead -c 200000 /dev/zero | tr '\\0' 'y'\necho\n", 0o755])
     return spec
 
 
@@ -99,7 +102,7 @@ def _request(kind, form):
     fam = clients.FORMS[form][1]
     sel = {"doc": b"/big.bin", "menu": b"/menu", "error": b"/missing", "info": b"/big.bin", "dirinfo": b"/menu",
            "zipmember": b"/arch.zip/m.txt", "mboxfolder": b"/box.mbox", "mboxmsg": b"/box.mbox|/MBOX-MESSAGE/2",
-           "html": b"/page.html", "maildirmsg": b"/md|/MAILDIR-MESSAGE/1"}[kind]
+           "html": b"/page.html", "maildirmsg": b"/md|/MAILDIR-MESSAGE/1", "gzdoc": b"/big.txt.gz", "script": b"/out.sh"}[kind]
     if kind == "info":
         if fam != "gplus":
             return None
